@@ -65,7 +65,7 @@ mod real {
     // ------------------------------------------------------------ lock-step engine
 
     struct St {
-        turn: Option<usize>,
+        grant: Vec<bool>,
         arrivals: Vec<u64>,
         finished: Vec<bool>,
         last: Vec<&'static str>,
@@ -100,12 +100,10 @@ mod real {
             st.last[id] = name;
             st.trace[id].push(name);
             self.cv.notify_all();
-            while st.turn != Some(id) && !st.released {
+            while !st.grant[id] && !st.released {
                 st = self.cv.wait(st).unwrap_or_else(|e| e.into_inner());
             }
-            if st.turn == Some(id) {
-                st.turn = None;
-            }
+            st.grant[id] = false;
             st.released
         }
         fn seen(&self, id: usize, name: &str) -> bool {
@@ -142,11 +140,22 @@ mod real {
         p.file_name()?.to_str()?.parse().ok()
     }
 
-    /// scheduler state of a thread of this process: 'R' running, 'S' sleeping (futex), ...
-    fn thread_state(tid: u32) -> Option<char> {
-        let s = std::fs::read_to_string(format!("/proc/self/task/{tid}/stat")).ok()?;
-        let rest = &s[s.rfind(')')? + 1..];
-        rest.trim_start().chars().next()
+    /// Where a thread of this process sleeps: `Some(addr)` = inside a futex wait on `addr`,
+    /// `None` = running / runnable / anything else.  (/proc/self/task/<tid>/syscall: number 202 =
+    /// futex on x86_64, 98 on aarch64; first argument = the futex word.)
+    fn futex_wait_addr(tid: u32) -> Option<usize> {
+        let stat = std::fs::read_to_string(format!("/proc/self/task/{tid}/stat")).ok()?;
+        let rest = &stat[stat.rfind(')')? + 1..];
+        if rest.trim_start().chars().next()? != 'S' {
+            return None;
+        }
+        let sc = std::fs::read_to_string(format!("/proc/self/task/{tid}/syscall")).ok()?;
+        let mut it = sc.split_whitespace();
+        let nr = it.next()?;
+        if nr != "202" && nr != "98" {
+            return None;
+        }
+        usize::from_str_radix(it.next()?.trim_start_matches("0x"), 16).ok()
     }
 
     #[derive(Clone, Copy, PartialEq, Debug)]
@@ -172,7 +181,7 @@ mod real {
             let n = gates.len();
             let sh = Arc::new(Shared {
                 m: Mutex::new(St {
-                    turn: None,
+                    grant: vec![false; n],
                     arrivals: vec![0; n],
                     finished: vec![false; n],
                     last: vec![""; n],
@@ -208,6 +217,7 @@ mod real {
         fn wait_progress(&self, t: usize, c: u64, long: bool) -> Progress {
             let deadline = Instant::now() + Duration::from_millis(if long { 3000 } else { 1500 });
             let mut sleepy = 0;
+            let mut last_addr: Option<usize> = None;
             loop {
                 let tid = {
                     let st = lock(&self.sh);
@@ -230,9 +240,23 @@ mod real {
                     }
                     st.tids[t]
                 };
-                match tid.and_then(thread_state) {
-                    Some('S') => sleepy += 1,
-                    _ => sleepy = 0,
+                // blocked = asleep in a futex that is not one of the engine's own (mutex / condvar
+                // words live inside `Shared`), on the same word for several consecutive samples
+                let lo = Arc::as_ptr(&self.sh) as usize;
+                let hi = lo + std::mem::size_of::<Shared>();
+                match tid.and_then(futex_wait_addr) {
+                    Some(a) if !(lo..hi).contains(&a) => {
+                        if last_addr == Some(a) {
+                            sleepy += 1
+                        } else {
+                            sleepy = 1;
+                            last_addr = Some(a)
+                        }
+                    }
+                    _ => {
+                        sleepy = 0;
+                        last_addr = None
+                    }
                 }
                 if sleepy >= 4 {
                     let st = lock(&self.sh);
@@ -241,11 +265,6 @@ mod real {
                     }
                     if st.arrivals[t] > c {
                         return Progress::Arrived;
-                    }
-                    if std::env::var_os("C19_DEBUG").is_some() {
-                        let sc = tid.and_then(|tid| std::fs::read_to_string(format!("/proc/self/task/{tid}/syscall")).ok());
-                        let wc = tid.and_then(|tid| std::fs::read_to_string(format!("/proc/self/task/{tid}/wchan")).ok());
-                        eprintln!("blocked t={t} last={} syscall={:?} wchan={:?} shared={:p}..+{}", st.last[t], sc, wc, Arc::as_ptr(&self.sh), std::mem::size_of::<Shared>());
                     }
                     return Progress::Blocked;
                 }
@@ -307,7 +326,7 @@ mod real {
             {
                 let mut st = lock(&self.sh);
                 self.mark[t] = st.arrivals[t];
-                st.turn = Some(t);
+                st.grant[t] = true;
                 self.sh.cv.notify_all();
             }
             match self.wait_progress(t, self.mark[t], false) {
@@ -762,11 +781,17 @@ mod real {
                             Err(_) => "panic".into(),
                         },
                         MOp::Hold => match catch_unwind(AssertUnwindSafe(|| memo.read_untracked_guard())) {
-                            Ok(g) => {
-                                let s = format!("h{}", *g);
-                                guard = Some(g);
-                                s
-                            }
+                            // the guard maps lazily: `unwrap()` of the memo's `Option` runs at deref
+                            Ok(g) => match catch_unwind(AssertUnwindSafe(|| *g)) {
+                                Ok(v) => {
+                                    guard = Some(g);
+                                    format!("h{v}")
+                                }
+                                Err(_) => {
+                                    drop(g);
+                                    "panic".into()
+                                }
+                            },
                             Err(_) => "panic".into(),
                         },
                         MOp::Drop => {
